@@ -222,6 +222,8 @@ def build_chain(rng, arch, os_, technique, depth, top_of_space=False):
     # frame sizes in words
     frames = []
     if technique == "fp":
+        if arch in (3, 6):
+            top_of_space = False     # arm64 strips pointer-authentication bits: frame pointers must stay below the mask (2^47)
         # [locals..][saved fp][return address]   fp register points at the saved fp slot
         words = []
         sizes = [rng.range(0, 6) for _ in range(depth + 1)]
